@@ -17,6 +17,11 @@ CLAIMS['C16'] = dict(
    text='The pruner touches keys only through comparisons, so its soundness is a fact about small tables in compiler/optimizer. T1 extracts rangePrunerPred, reverseComparator, literalComparison, compare() and the and/or composition of buildRangePruner from the AST of the current tree and checks exhaustively over a 5-point total order plus NULL-as-max that pruner(min,max) implies no key in [min,max] satisfies the predicate (all comparison ops, literal on either side, and/or with opaque or comparison operands). S1/D1/S2/S3/B1/N1 decide on SSA, for all paths: every KeyPruner is derived from the filter actually pushed into that scan and the source sort keys; the deleter never gets one; a pruner result skips only after Type()==TypeBool && Bool(); min/max argument order and metadata tags; only pool-key comparisons reach the table; both publishers of bounds swap for descending pools; lake comparators use nullsMax=true. Does not decide agreement between compare() and the filter\'s coercing comparison for mixed-type keys, nor that seek-index bounds are true bounds.',
    note='Trusts the table extractor (fails closed on any unrecognised shape) and that a 5-point order + NULL suffices for comparison-only tables with at most three operands.',
    ref='DESIGN.md §2 C16')
+CLAIMS['C05'] = dict(
+   technique='lock-state dataflow on SSA (guarded fields, requires-held helpers, deferred-unlock windows, reentrancy), critical-section atomicity by avoid-reachability, ownership of map values, table agreement',
+   text='Decides for every path of every function of package zed the structural conditions type canonicity rests on: (L1) Context.byID/toType/toValue/typedefs and Mapper.types are only touched with mu held (write lock for writes), requires-held helpers only called with it; (L2) no call while a deferred unlock is pending on a released mutex; (L3) toType miss, ID allocation and insert happen in one critical section for every enterWithLock call site; (L4) no reentrant acquisition; (W1) toValue only receives pool-owned or cloned bytes, for a freshly constructed type or under a failed presence test (never a caller slice, never an overwrite); (P1) union members sorted by CompareTypes before the type value is computed; (P2) a tvPool buffer is never both recycled and entered; (K1) encoder/decoder type-value tags agree. Does not decide structural-equality <=> pointer-equality as such, CompareTypes being a total order, or def/ref name rebinding between concurrent decoders.',
+   note='One receiver per method (mutex instance = receiver); closures run synchronously under the state at their creation unless started with go.',
+   ref='DESIGN.md §2 C05')
 NA = {}
 for i in range(1, 21):
     pid = 'C%02d' % i
